@@ -103,3 +103,54 @@ func (x *Index) ResetWith(ref *graphref.Ref) {
 	x.db = memorydb.New()
 	x.Idx.Reset(ref.Validators(), x.db, func(id hash.Event) dag.Event { return x.evs[id] })
 }
+
+// Session is a drawn way of driving one index: flush after every event (the consensus flow, with the no-op
+// DropNotFlushed that follows there) or after several, and sometimes, after a flush, a reload of everything from the
+// database (DropNotFlushed, Reset over the same database, a new index object).
+type Session struct {
+	FlushEvery int
+	Reloads    int
+	label      string
+	step       int
+	reloadPct  []int
+}
+
+// DrawSession draws the flush period and how often a flush is followed by a reload.
+func DrawSession(t *rapid.T, label string) *Session {
+	s := &Session{label: label, FlushEvery: rapid.SampledFrom([]int{1, 1, 2, 3, 7}).Draw(t, label+".flushEvery")}
+	switch rapid.IntRange(0, 3).Draw(t, label+".reloadStyle") {
+	case 0:
+		s.reloadPct = []int{0} // never
+	case 1:
+		s.reloadPct = []int{1} // DropNotFlushed after every flush, as the consensus layer does
+	default:
+		s.reloadPct = []int{0, 0, 0, 0, 1, 1, 2, 3}
+	}
+	return s
+}
+
+// AddS indexes event i within the session; last forces the final flush. It reports whether the index object was
+// replaced (adapters holding the old object must be rebuilt).
+func (x *Index) AddS(t *rapid.T, s *Session, i int, last bool) (replaced bool, err error) {
+	if err := x.AddNoFlush(i); err != nil {
+		return false, err
+	}
+	s.step++
+	if s.step%s.FlushEvery != 0 && !last {
+		return false, nil
+	}
+	x.Idx.Flush()
+	switch rapid.SampledFrom(s.reloadPct).Draw(t, s.label+".afterFlush") {
+	case 1:
+		x.Idx.DropNotFlushed()
+		s.Reloads++
+	case 2:
+		x.ResetSameDB()
+		s.Reloads++
+	case 3:
+		x.Reopen()
+		s.Reloads++
+		return true, nil
+	}
+	return false, nil
+}
